@@ -269,7 +269,9 @@ func TestChainTransparency(t *testing.T) {
 					t.Fatalf("%s: an FEC packet (call %d) was written before application packet seq %d itself", where, ci, l.seq)
 				}
 			}
-			if found != 1 {
+			// A plain (non-RTX) NACK responder answers asynchronously: a request for a number that is written a moment later
+			// can produce an identical copy while that write is still in progress. With RTX the copy carries the RTX SSRC.
+			if found < 1 || (found > 1 && !(hasResponder && l.info.SSRCRetransmission == 0)) {
 				t.Fatalf("%s: application packet seq %d reached the next writer %d times during its write (calls: %d)", where, l.seq, found, len(calls))
 			}
 			if fail {
@@ -351,7 +353,6 @@ func TestChainTransparency(t *testing.T) {
 			if fail {
 				faults++
 			}
-			rtcpSink.OnCall = nil
 			n, werr := writeMarked(rtcpW, rtcpSink, pkts, fail)
 			if fail {
 				if !errors.Is(werr, errRTCPWrite) {
